@@ -1,10 +1,10 @@
 (* Properties/C09.v — self-description is a fixed point.
-   Statements only; proofs in Proofs/C09Describe.v, C09Fixpoint.v, C09Plugin.v, C09Behaviour.v, C09Transport.v, C09Link.v.  Model: Schema/Describe.v (`describe` = SelfSerialize,
+   Statements only; proofs in Proofs/C09Describe.v, C09Fixpoint.v, C09Plugin.v, C09Behaviour.v, C09Behaviour2.v, C09Transport.v, C09Link.v.  Model: Schema/Describe.v (`describe` = SelfSerialize,
    `rebuild` = UnserializeScope, `rebuild_plugin` = UnserializeSchema, `describable` = the meta-schema's own
    constraints, `erase` = what a description cannot carry), tied to the SDK by the family c09describe. *)
 From Verif Require Import Base.Prelude Base.Str Base.Float Base.GoVal
   Schema.Regex Schema.Units Schema.Syntax Schema.Ops Schema.Cbor Schema.Describe
-  Proofs.DescribeBase Proofs.C09Describe Proofs.C09Fixpoint Proofs.C09Plugin Proofs.C09Behaviour Proofs.C09Transport Proofs.C09Link.
+  Proofs.DescribeBase Proofs.C09Describe Proofs.C09Fixpoint Proofs.C09Plugin Proofs.C09Behaviour Proofs.C09Transport Proofs.C09Link Proofs.C09Behaviour2.
 Open Scope string_scope.
 
 (* C09_fixpoint.  For EVERY scope s that is describable, whose pattern sources regexp.Compile maps to their
@@ -145,8 +145,7 @@ Proof. split; vm_compute; [exact I | reflexivity]. Qed.
 (* C09_behaviour.  The rebuilt schema behaves like the original: for EVERY describable scope that links, the
    schema UnserializeScope returns for its description unserializes EVERY input, in EVERY environment of
    applied namespaces and at every fuel, to exactly the outcome (value, or error with its kind and path)
-   of the original.  (Schema/Ops.v models Unserialize; Validate / Serialize / ValidateCompatibility of the
-   rebuilt schema are compared with the original's on every generated input by the family c09describe.) *)
+   of the original.  (The other three operations of Schema/Ops.v: C09_behaviour_all_paths below.) *)
 Theorem C09_behaviour :
   forall (words : list (string * bool)) (pu : units -> string -> option fl) (cu : units)
          (rp : string -> option re) (jor : oracles) os root,
@@ -162,6 +161,61 @@ Proof.
   - intros. apply unser_erase_schema.
 Qed.
 Print Assumptions C09_behaviour.
+
+(* C09_behaviour_all_paths.  The same on EVERY operation Schema/Ops.v models: for EVERY describable scope that
+   links, the schema UnserializeScope returns for its description gives, on EVERY value, at EVERY fuel and in
+   EVERY environment of applied namespaces, exactly the outcome of the original (the value, or the error with its
+   class and path; Panic and OutOfFuel included) for Unserialize, Validate, Serialize and data-mode
+   ValidateCompatibility (`same_behaviour`, Proofs/C09Behaviour2.v).
+   The relation is plain equality, not "equal up to a renaming of result types": what a description cannot
+   carry is TreatEmptyAsDefaultValue only (`erase`), and that flag is read only by the struct-mapped object code
+   (Schema/XOps.v; schema/object.go extractPropertyValue, validateStruct) - never by a map-based schema, which
+   is what a rebuilt schema always is.  The one construct whose unserialized Go TYPE a description could not
+   carry, a typed string enum, cannot be described at all (D69, C09_not_describable_refuted: w_typed_enum), so
+   no rebuilt schema has an original with one, and `erase` leaves `SEnumStr (Some _) _` untouched: there is no
+   "equal up to the enum's Go type" case left to state.  (A rebuilt schema whose ORIGINAL was struct-mapped is
+   outside Schema/Ops.v altogether - the original works on struct values, the rebuilt one on maps.) *)
+Theorem C09_behaviour_all_paths :
+  forall (words : list (string * bool)) (pu : units -> string -> option fl) (cu : units)
+         (rp : string -> option re) (jor : oracles) os root,
+  let s := SScope os root in
+  describable s = true ->
+  (forall p, In p (pats_of s) -> rp (fst p) = Some (snd p)) ->
+  link_ok jor [] s = true ->
+  exists s', rebuild words pu cu rp jor (describe s) = Ok s'
+             /\ forall fuel e v,
+                  unser words pu fuel e s' v = unser words pu fuel e s v
+                  /\ validate words pu fuel e s' v = validate words pu fuel e s v
+                  /\ serialize words pu fuel e s' v = serialize words pu fuel e s v
+                  /\ compat words pu fuel e s' v = compat words pu fuel e s v.
+Proof. exact rebuilt_all_paths. Qed.
+Print Assumptions C09_behaviour_all_paths.
+
+(* without any hypothesis on s: `erase` is invisible to all four operations (and to the one-of member search
+   they share), in the erased environment and in any environment *)
+Theorem C09_erase_invisible_all_paths : forall words pu fuel e s v,
+  (validate words pu fuel (erase_env e) (erase s) v = validate words pu fuel e s v
+   /\ serialize words pu fuel (erase_env e) (erase s) v = serialize words pu fuel e s v
+   /\ compat words pu fuel (erase_env e) (erase s) v = compat words pu fuel e s v
+   /\ unser words pu fuel (erase_env e) (erase s) v = unser words pu fuel e s v)
+  /\ (validate words pu fuel e (erase s) v = validate words pu fuel e s v
+      /\ serialize words pu fuel e (erase s) v = serialize words pu fuel e s v
+      /\ compat words pu fuel e (erase s) v = compat words pu fuel e s v
+      /\ unser words pu fuel e (erase s) v = unser words pu fuel e s v).
+Proof. exact erase_invisible_all_paths. Qed.
+Print Assumptions C09_erase_invisible_all_paths.
+
+(* the same for every data schema (step input, outputs, signal handler and emitter data) of a rebuilt plugin schema *)
+Theorem C09_behaviour_plugin_all_paths :
+  forall (words : list (string * bool)) (pu : units -> string -> option fl) (cu : units)
+         (rp : string -> option re) (jor : oracles) (p : dplugin),
+  good_plugin rp p ->
+  forallb (link_ok jor []) (plugin_scopes p) = true ->
+  existsb foreign_refs (plugin_scopes p) = false ->
+  exists p', rebuild_plugin words pu cu rp jor (describe_plugin p) = Ok p'
+             /\ Forall2 (same_behaviour words pu) (plugin_scopes p') (plugin_scopes p).
+Proof. exact rebuilt_plugin_all_paths. Qed.
+Print Assumptions C09_behaviour_plugin_all_paths.
 
 (* ---- whole plugin schemas (the hello message of the ATP protocol) ---- *)
 (* C09_plugin.  For EVERY plugin schema whose step / output / signal ids and displays satisfy the meta-schema,
@@ -197,6 +251,14 @@ Definition y_plugin : dplugin :=
       [("progress", mkSignal "progress" y_data None)]
       (Some y_disp))].
 
+(* the rebuilt schema is not the original: TreatEmptyAsDefaultValue of the first property is gone *)
+Definition first_flag_differs (a b : schema) : bool :=
+  let flag s := match s with
+                | SScope ((_, SObject _ _ ((_, p) :: _)) :: _) _ => p_empty_is_default p
+                | _ => false
+                end in
+  negb (Bool.eqb (flag a) (flag b)).
+
 (* C09_behaviour on examples: an accepted input (a default filled in, a reference followed) and a refused one *)
 Example C09_example_behaviour :
   let e := mkEnv [] [("other", [("E", SObject "E" false [])])] y_jor in
@@ -209,6 +271,30 @@ Example C09_example_behaviour :
       /\ unser y_words y_pu 20 e s' bad = unser y_words y_pu 20 e y_scope bad
       /\ match unser y_words y_pu 20 e y_scope bad with Err _ => True | _ => False end
   | _, _ => False
+  end.
+Proof. vm_compute. repeat split; reflexivity. Qed.
+
+(* C09_behaviour_all_paths on examples: native values through Validate / Serialize / ValidateCompatibility of the
+   rebuilt and of the original schema - an accepted value (a reference followed), and a refused one (bound) *)
+Example C09_example_all_paths :
+  let e := mkEnv [] [] y_jor in
+  let v := VMap t_str_map false [(vstr "n", vi64 2); (vstr "s", vstr "abc");
+                                 (vstr "again", VMap t_str_map false [(vstr "n", vi64 7)])] in
+  let bad := VMap t_str_map false [(vstr "again", VMap t_str_map false [(vstr "n", vi64 (-7))])] in
+  match rebuild y_words y_pu y_cu y_rp y_jor (describe y_data) with
+  | Ok d' =>
+      (if first_flag_differs d' y_data then True else False)
+      /\ validate y_words y_pu 20 e d' v = Ok tt /\ validate y_words y_pu 20 e y_data v = Ok tt
+      /\ serialize y_words y_pu 20 e d' v = serialize y_words y_pu 20 e y_data v
+      /\ is_ok (serialize y_words y_pu 20 e y_data v) = true
+      /\ compat y_words y_pu 20 e d' v = Ok tt /\ compat y_words y_pu 20 e y_data v = Ok tt
+      /\ validate y_words y_pu 20 e d' bad = validate y_words y_pu 20 e y_data bad
+      /\ validate y_words y_pu 20 e y_data bad = Err (mkErr true ["again"; "n"] EBound)
+      /\ serialize y_words y_pu 20 e d' bad = serialize y_words y_pu 20 e y_data bad
+      /\ is_err (serialize y_words y_pu 20 e y_data bad) = true
+      /\ compat y_words y_pu 20 e d' bad = compat y_words y_pu 20 e y_data bad
+      /\ is_err (compat y_words y_pu 20 e y_data bad) = true
+  | _ => False
   end.
 Proof. vm_compute. repeat split; reflexivity. Qed.
 
